@@ -8,7 +8,7 @@ DATA_MID = [(0x20, 0x3B), (0x3D, 0x7E), (0xA0, 0xFF), (0x100, 0x100), (0x20AC, 0
 DATA_END = [(0x21, 0x3B), (0x3D, 0x7E), (0xA1, 0xFF), (0x100, 0x100), (0x20AC, 0x20AC), (0x4E2D, 0x4E2D)]   # ... and not blank
 
 
-def sym_tree(ctx, shape, taglen, datalen, tagset=None):
+def sym_tree(ctx, shape, taglen, datalen, tagset=None, tagprefix=""):
     """nested spec (tag, data | None, children) with symbolic tags and data following the skeleton"""
     counter = [0]
 
@@ -19,7 +19,7 @@ def sym_tree(ctx, shape, taglen, datalen, tagset=None):
             tag = ctx.enum(f"tag{i}", tagset)
         else:
             n = taglen if isinstance(taglen, int) else ctx.choice(f"tl{i}", list(taglen))
-            tag = ctx.str(f"tag{i}", n, TAGCHARS)
+            tag = tagprefix + ctx.str(f"tag{i}", n, TAGCHARS)
         data = None
         if not children and not is_root and ctx.bool(f"leaf{i}"):
             n = datalen if isinstance(datalen, int) else ctx.choice(f"dl{i}", list(datalen))
